@@ -742,9 +742,9 @@ impl OutstationSession {
                 self.on_link_activity();
                 return Ok(UnsolicitedWaitResult::ReadNext);
             }
-            Some(TransportRequest::Error(from, err)) => {
+            Some(TransportRequest::Error(info, err)) => {
                 self.state.deferred_read.clear();
-                self.write_error_response(io, from, writer, err, database)
+                self.write_error_response(io, info, writer, err, database)
                     .await?;
                 return Ok(UnsolicitedWaitResult::ReadNext);
             }
@@ -1003,9 +1003,9 @@ impl OutstationSession {
             Some(TransportRequest::LinkLayerMessage) => {
                 self.on_link_activity();
             }
-            Some(TransportRequest::Error(from, err)) => {
+            Some(TransportRequest::Error(info, err)) => {
                 self.on_link_activity();
-                self.write_error_response(io, from, writer, err, database)
+                self.write_error_response(io, info, writer, err, database)
                     .await?;
             }
             None => (),
@@ -1081,11 +1081,17 @@ impl OutstationSession {
     async fn write_error_response(
         &mut self,
         io: &mut PhysLayer,
-        respond_to: FragmentAddr,
+        info: FragmentInfo,
         writer: &mut TransportWriter,
         err: TransportRequestError,
         database: &DatabaseHandle,
     ) -> Result<(), RunError> {
+        // an outstation must never respond to a fragment sent to a broadcast address
+        if info.broadcast.is_some() {
+            tracing::warn!("ignoring malformed broadcast fragment: {:?}", err);
+            return Ok(());
+        }
+
         let seq = match err {
             TransportRequestError::HeaderParseError(err) => match err {
                 HeaderParseError::UnknownFunction(seq, _) => Some(seq),
@@ -1099,7 +1105,7 @@ impl OutstationSession {
             self.write_solicited(
                 io,
                 writer,
-                respond_to,
+                info.addr,
                 Response::empty_solicited(seq, iin),
                 database,
             )
